@@ -18,7 +18,7 @@ TECHNIQUE = ("deterministic simulation: 1-8 concurrent send_packet calls on the 
              "compared with a reference model and the NCP-side command stream is checked for interleaving"
              ' The whole-stack soak (dst/soak.py: one ControllerApplication object through several connect/traffic/failure/reconnect epochs) is a further seeded scenario of this check.')
 LEVEL_TEXT = ("seeded search over request mixes (plain / source-routed / extended-timeout / IEEE-addressed unicasts, multicast, broadcast), per-attempt enqueue "
-              "statuses, confirmation behaviours, cancellation points and versions {4, 8, 9, 13, 14}, plus a complete sweep of single-request scripts "
+              "statuses, confirmation behaviours, cancellation points and versions 4..14, plus a complete sweep of single-request scripts "
               "(enqueue status sequence x confirmation behaviour); virtual time makes the 120 s confirmation timeout and the 0.5/1.0/1.5 s retry spacing exact")
 COMPONENTS = e3app.COMPONENTS
 RULE = ("sweep: (version, request kind, enqueue status sequence, confirmation behaviour) for one request; random: 1-8 concurrent requests with drawn scripts and "
@@ -34,7 +34,7 @@ PROBES = ["kind.plain", "kind.route", "kind.exttimeout", "kind.ieee", "kind.mult
           "confirm.success", "confirm.failure", "confirm.never", "confirm.duplicate", "confirm.wrong_tag", "confirm.wrong_dest", "confirm.unsolicited",
           "confirm.before_response", "confirm.stale_repeat", "series_same_tsn", "series_distinct_tsn", "cancelled", "overlapping_requests", "timeout_120s", "setup_commands_seen"]
 
-VERSIONS = (4, 8, 9, 13, 14)
+VERSIONS = tuple(range(4, 15))
 BUSY = ("MAX_MESSAGE_LIMIT_REACHED", "NETWORK_BUSY", "NO_BUFFERS")
 REFUSE = ("NETWORK_DOWN", "INVALID_CALL")
 CONFIRMS = ("success", "failure", "never", "duplicate", "wrong_tag", "wrong_dest", "before_response", "wrong_then_right", "late_119", "late_121")
@@ -53,7 +53,7 @@ def plan(tier):
                 sweeps.append(("single", {"V": V, "kind": kind, "enq": enq, "confs": list(confs), "sched": False}))
     return {
         "sweeps": sweeps,
-        "exhaustive": "versions {4,8,9,13,14} x request kind x enqueue status script {OK; busy,OK; busy,busy,OK; busy x3; refused; busy,refused} x confirmation behaviour, one request at a time",
+        "exhaustive": "versions 4..14 x request kind x enqueue status script {OK; busy,OK; busy,busy,OK; busy x3; refused; busy,refused} x confirmation behaviour, one request at a time",
         "random": [("random", {}, 2), ("samedest", {}, 1), ("soak", {}, 1)],
         "runs": 1200 if tier == "quick" else None,
         "budget_s": 60 if tier == "quick" else 900,
